@@ -21,6 +21,8 @@ def molecule_pair(draw, max_atoms=40, kinds_big=("tree", "chain", "star", "cycli
     the other any connected-or-not graph with >=1 bond and >=1 non-hydrogen atom."""
     relation = draw(st.sampled_from(["start-smaller", "start-smaller", "start-larger", "equal"]))
     small = draw(st.integers(1, max(1, max_atoms // 2)))
+    if max_atoms >= 40 and draw(st.integers(0, 3)) == 0:
+        small = draw(st.integers(20, 38))            # a long, flexible mobile molecule
     if relation == "equal":
         small = max(small, 2)
         big = small
